@@ -666,10 +666,10 @@ func (s *BgpServer) prePolicyFilterpath(peer *peer, path, old *table.Path) (*tab
 	// be dropped there and the peer would keep the route.
 	if conf.AsPathOptions.State.ReplacePeerAs {
 		if path != nil {
-			path = path.ReplaceAS(conf.Config.LocalAs, conf.Config.PeerAs)
+			path = path.ReplaceAS(conf.Config.LocalAs, conf.State.PeerAs)
 		}
 		if old != nil {
-			old = old.ReplaceAS(conf.Config.LocalAs, conf.Config.PeerAs)
+			old = old.ReplaceAS(conf.Config.LocalAs, conf.State.PeerAs)
 		}
 	}
 
